@@ -770,12 +770,12 @@ fn c04_known(ctx: &Ctx) -> Report {
 fn defs0() -> Vec<CheckDef> {
     vec![
         mk("C02", "random jobs biased to repartitioning, small batches and padded (up to 70 kB) elements, 2-3 deployments each; observer hook records every batch at NetworkSender::send and matches every received batch against the head of its link's queue (kinds, timestamps, element digests), all queues empty at the end; stamped sequence numbers arrive in order and on one consumer only; non-trivial = some link carried >= 3 batches; distinct = hash of (job, configuration)", COMMON, c02),
-        mk("C03", "random jobs dense in repartitioning (forward incl. narrowing, group_by, repartition_by into Limited/Host/One blocks, shuffle, broadcast, route, split with several downstream blocks, hash- and broadcast-shipped joins), replica counts equal/coprime/1/heterogeneous; every element is stamped by the last operator of its block and traced, through the send hook, to the endpoints it was enqueued to; oracle per downstream block: forward = one endpoint, the same-index replica when it exists; group-by = one endpoint, a function of the key alone across all producers and both join inputs; shuffle = one; broadcast = every replica once; route = exactly one replica of the first matching route's block, nothing for unmatched elements; every FlushAndRestart and Terminate a producer emits is sent to every connected endpoint; non-trivial = a group-by edge with >= 2 keys and >= 2 consumer replicas, or a producer with >= 2 downstream blocks", COMMON, c03),
+        mk("C03", "random jobs dense in repartitioning (forward incl. narrowing, group_by, repartition_by into Limited/Host/One blocks, shuffle, broadcast, route, split with several downstream blocks, hash- and broadcast-shipped joins), replica counts equal/coprime/1/heterogeneous; every element is stamped by the last operator of its block and traced, through the send hook, to the endpoints it was enqueued to; oracle per downstream block: forward = one endpoint, the same-index replica when it exists; group-by = one endpoint, a function of the key alone across all producers and both join inputs; shuffle = one; broadcast = every replica once; route = exactly one replica of the first matching route's block, nothing for unmatched elements; every FlushAndRestart and Terminate a producer emits is sent to every connected endpoint; that equal keys of both inputs of a join (incl. a two-phase aggregation joined with a group_by stream) meet on one replica is additionally judged through the join results at the sinks; non-trivial = a group-by edge with >= 2 keys and >= 2 consumer replicas, or a producer with >= 2 downstream blocks", COMMON, c03),
         mk("C04", "random jobs biased to loops, side inputs, diamonds, empty inputs and small batches; oracle: every host's execute_blocking returns, every worker that started ended without panic, every sink handle yields its complete result on exactly the prescribed hosts; a deadlock is declared by the quiescence watchdog (no engine event for 10 s / 20 s with all live workers parked in a channel operation or flat CPU time); non-trivial = loop, diamond, empty source or a link with > 16 batches", COMMON, c04),
-        mk("C05", "random jobs with a probe after every stage (incl. inside loop bodies); oracle: (a) each replica's sequence at each probe matches ((Item|Timestamped|Watermark|FlushBatch)* FlushAndRestart)+ Terminate, (b) elements stamped in producer iteration k are observed in consumer iteration k on pass-through edges, (c) per probe and iteration the multiset over all replicas equals the reference interpreter's round (all results before the marker, nothing carried over); non-trivial = loop present, or >= 2 replicas and a repartitioning edge", COMMON, c05),
+        mk("C05", "random jobs with a probe after every stage (incl. inside loop bodies); oracle: (a) each replica's sequence at each probe matches ((Item|Timestamped|Watermark|FlushBatch)* FlushAndRestart)+ Terminate, (b) elements stamped in producer iteration k are observed in consumer iteration k on pass-through edges, (c) per probe and iteration the multiset over all replicas equals the reference interpreter's round (all results before the marker, nothing carried over) - loop bodies contain folds, keyed aggregations, joins whose inputs change from round to round, count windows and zips with order-independent results; non-trivial = loop present, or >= 2 replicas and a repartitioning edge", COMMON, c05),
         mk("C07", "random jobs dense in the 10 keyed and 4 global aggregation forms (top level, behind shuffles, inside replay bodies), key counts 1..64, skewed/empty inputs; oracle: per probe and iteration the observed multiset equals the sequential fold per key (one result per occurring key, none for an empty input), hence two-phase forms equal shuffle-then-aggregate forms; sinks equal the reference; non-trivial = aggregation, >= 2 replicas, >= 4 input elements", COMMON, c07),
         mk("C08", "random jobs dense in joins (6 algorithms x inner/left/outer, diamonds = self joins, second sources incl. empty ones, inside loops), delay injection biasing which side arrives/ends first; oracle: join output multiset equals the nested-loop relational join at the probe after the join and at every sink; non-trivial = join, >= 2 replicas, >= 2 elements", COMMON, c08),
-        mk("C09", "random jobs dense in split (fork/diamond), route (1-4 overlapping, non exhaustive predicates), merge, broadcast and zip of sequential streams; oracle: per probe the observed multiset equals the reference (every split branch sees the whole stream, route = first matching predicate, merge = multiset union, broadcast = once per downstream replica, zip positional); non-trivial = one of these operators and >= 10 elements", COMMON, c09),
+        mk("C09", "random jobs dense in split (fork/diamond), route (1-4 overlapping, non exhaustive predicates), merge, broadcast and zip of sequential streams; oracle: per probe the observed multiset equals the reference (every split branch sees the whole stream, route = first matching predicate, merge = multiset union, broadcast = once per downstream replica, zip positional); a second mode zips two streams with arbitrary arrival order (parallel sources, shuffles, inputs re-partitioned into Limited(n)/Host blocks, a slow side) and checks the validity predicate: exactly min(|a|,|b|) pairs, each pairing one element of each side, none used twice, positional when both are sequential; non-trivial = one of these operators and >= 10 elements (jobs), unequal non-empty sides (zip mode)", COMMON, c09),
         mk("C10", "random jobs dense in replay/iterate (bounds 0-6, conditions stopping early, nested replay, bodies with shuffles/aggregations/joins), mostly multi-host, delay injection; oracle: a probe at the head of every loop body reads the state handle for every element: it must equal the sequential loop's state of the previous round; per-round multisets at every body probe, number of rounds, final state and output equal the reference; non-trivial = loop and >= 2 replicas", COMMON, c10),
         mk("C11", "random loop jobs whose body merges/joins/zips the loop stream with a stream from outside (side sizes 0..300, small batches, 0-6 rounds); oracle: per round the multiset observed after the combining operator equals the reference (side input complete, identical in every round), the job terminates, each replica's probe sees one Terminate, every worker ends; non-trivial = side input inside a loop", COMMON, c11),
     ]
